@@ -1,12 +1,13 @@
 """C27 Link control PDUs get the specified responses."""
 import os, sys
 sys.path.insert(0, os.path.dirname(__file__))
-import llc, lle
+import llc, lle, C27cpr
 REPLAY = dict(src='replay/c27_replay.cpp', cxxflags=['-DNDEBUG', '-I/repo/tests/test_tools', '-I/repo/tests/link_layer'],
               repo_sources=['tests/test_tools/test_radio.cpp', 'tests/test_tools/test_servers.cpp', 'tests/test_tools/hexdump.cpp', 'tests/test_tools/buffer_io.cpp', 'tests/test_tools/address_io.cpp',
                             'bluetoe/link_layer/delta_time.cpp', 'bluetoe/link_layer/channel_map.cpp', 'bluetoe/link_layer/connection_details.cpp', 'bluetoe/utility/address.cpp'])
 UNITS = [llc.unit('C27_CLAUSES', enforce=['handle_ll_control_data'], replay=REPLAY),
-         lle.unit(['ll_timeout', 'll_end_event', 'transmit_pending_control_pdus', 'valid_phy_encoding', 'handle_phy_request'], replay=REPLAY)]
+         lle.unit(['ll_timeout', 'll_end_event', 'transmit_pending_control_pdus', 'valid_phy_encoding', 'handle_phy_request'], replay=REPLAY),
+         C27cpr.UNIT]
 META = dict(
     level='other',
     explanation="link_layer<>::handle_ll_control_data (link_layer.hpp, real body, every header, length, opcode and content, every feature set and state flag): LL_PING_REQ(1) -> "
@@ -22,10 +23,20 @@ META = dict(
                 "planning the next event; it is ended only by the answer to the procedure it belongs to (LL_VERSION_IND after the own one, LL_PHY_UPDATE_IND after the own "
                 "LL_PHY_REQ, LL_UNKNOWN_RSP / reject naming the request, LL_CONNECTION_UPDATE_IND applied at its instant) - a version exchange or PHY update started by the "
                 "central leaves it running. LL_PHY_REQ(3) -> LL_PHY_RSP( 1M | 2M, 1M | 2M ); LL_PHY_UPDATE_IND(5) with defined PHYs is never answered; other PHY PDUs are "
-                "left to the caller (LL_UNKNOWN_RSP).",
+                "left to the caller (LL_UNKNOWN_RSP). "
+                "Parameter request handling (unit parameter_request, ll_options.hpp, real bodies of parse_and_check_params and of the three implementations of "
+                "handle_connection_parameters_request, every request content and every configured range): a request with Interval_Max < Interval_Min, Interval_Min < 7.5 ms, "
+                "Interval_Max > 4 s or latency > 499 is answered with LL_REJECT_EXT_IND( LL_CONNECTION_PARAM_REQ, invalid LL parameters ); otherwise - no configuration: "
+                "LL_CONNECTION_PARAM_RSP repeating the request's 23 parameter octets; desired_connection_parameters<>: LL_CONNECTION_PARAM_RSP whose interval range, latency "
+                "and timeout lie within the configured ranges and are the request's own values wherever those lie within them (interval: the intersection if it is not "
+                "empty), the remaining octets are the request's; asynchronous_connection_parameter_request<>: the parameters already in use are confirmed at once, anything "
+                "else is handed to the application with the four requested values and NOT answered now; connection_parameters_response_fill sends what the application "
+                "decided - LL_CONNECTION_PARAM_RSP with its four values (periodicity 0, offsets 0xffff) or LL_REJECT_EXT_IND with its reason - and clears the pending flag.",
     assumptions=["one time out is shared by all procedures: two requests queued before either is sent (connection parameter request and version request) share it, the first answer "
                  "ends it for both - the per function contracts do not decide that history; LL_REJECT_IND (which names no request) ends it whatever is running",
-                 "handle_connection_parameters_request and handle_encryption_pdus (C28) are abstract in handle_ll_control_data; handle_phy_request is replaced there by a stand-in "
+                 "the supervision timeout of a connection parameter request is not validated by the library (neither its range nor timeout > ( 1 + latency ) * interval * 2) "
+                 "and the property does not say it has to be; desired_connection_parameters<> is used with min <= max in each pair (precondition, no static_assert)",
+                 "handle_connection_parameters_request (contract in unit parameter_request: it returns whether an answer was filled in) and handle_encryption_pdus (C28) are abstract in handle_ll_control_data; handle_phy_request is replaced there by a stand-in "
                  "that follows its contract proved in unit events (it ends the time out only for LL_PHY_UPDATE_IND while the own PHY request is running)",
                  "time_since_last_event(), the planning of events, handle_received_data and the radio are abstract in end_event / timeout; the order of the calls is recorded",
                  "response opcodes a central has no reason to send (LL_FEATURE_RSP, LL_PING_RSP, LL_PHY_RSP, ...) are 'unknown' to a peripheral and get LL_UNKNOWN_RSP - the clause "
